@@ -154,12 +154,17 @@ def c09(res, tier, seed, replay):
         # (hook H6b); its answer is compared with a single search on a cold copy of the file (VamanaPair forced/single)
         {"hist": [["RBegin", "r1"], ["RAttachNew", "r1"], ["RUntil", "r1", "LoadNeighbours+verifSearchStep"], ["RBegin", "r2"],
                   ["RAttachShared", "r2"], ["REnd", "r2"], ["REnd", "r1"]]},
+        # a search holds the shared object for more than two seconds while a write batch waits for it; a search that
+        # begins after the commit is compared with a single search on a cold copy of the file
+        {"hist": [["WBegin", ""], ["WAttach", ""], ["WCommit", ""], ["RBegin", "r1"], ["RAttachShared", "r1"], ["RGetShared", "r1"],
+                  ["WBegin", "", "insert"], ["WAttach", ""], ["Pause", "", "1200"], ["RGetShared", "r1"], ["REnd", "r1"], ["WCommit", ""],
+                  ["RBegin", "r2"], ["RAttachShared", "r2"], ["REnd", "r2"]]},
     ]
     nb = 240 if tier == "quick" else 3000
     behs = vlib.tlc_simulate("ShardCacheSim", "ShardCache.sim.cfg", nb, 200, seed, timeout=1200)
     # (the schedule of C09-a kills the process: it gets chunks of its own)
     chunk = 60
-    behs = [canon[1]] * chunk + ([canon[0], canon[2], canon[3], canon[3]] * 8 + [canon[4], canon[5], canon[6], canon[7]] * 3 + [canon[8]] * 8 + [canon[9]] * 4 + behs)
+    behs = [canon[1]] * chunk + ([canon[0], canon[2], canon[3], canon[3]] * 8 + [canon[4], canon[5], canon[6], canon[7]] * 3 + [canon[8]] * 8 + [canon[9]] * 4 + [canon[10]] * 3 + behs)
     res.coverage["forced_schedule_behaviours"] = len(behs)
     forced = 0
     fresults = []
